@@ -174,7 +174,7 @@ func (P *Program) entryFunc(name string) *ssa.Function {
 // tableName: uninterpreted-function name for a constant table; defined per
 // Exec at level 0 (see initWorker).
 func (P *Program) tableName(x *Exec, a Array) (string, bool) {
-	sig := tableSig(a)
+	sig := fmt.Sprintf("%d:", a.E[0].(Int).W) + tableSig(a)
 	n, ok := x.tables[sig]
 	return n, ok
 }
